@@ -33,15 +33,25 @@ WRITERS = {
 WKEYS = sorted(WRITERS)
 
 
-def gen_desc(rng, many_groups=False):
+def gen_desc(rng, many_groups=False, common_prefix=False):
     d = M.gen_matrix(rng, {"floats": False, "limits": True, "cycle": True, "maxframes": 4})
+    while common_prefix and len(d["frames"]) < 2:
+        d = M.gen_matrix(rng, {"floats": False, "limits": True, "cycle": True, "maxframes": 4})
     d["opts"] = {"update": rng.random() < 0.5}
     fr = d["frames"]
     if rng.random() < 0.4 and fr:
         fr[0]["name"] = "A_very_long_frame_name_exceeding_thirty_two_chars"
         if fr[0]["signals"]:
             fr[0]["signals"][0]["name"] = "a_signal_name_that_is_longer_than_32_characters"
-    if rng.random() < 0.35 and len(fr) >= 2:
+    r2 = 0.0 if common_prefix else rng.random()
+    if r2 < 0.15 and len(fr) >= 2:
+        # names longer than 32 characters that agree in their first 32 characters (also ECUs and signals)
+        fr[0]["name"] = "A_very_long_frame_name_exceeding_thirty_two_chars_first"
+        fr[1]["name"] = "A_very_long_frame_name_exceeding_thirty_two_chars_second"
+        if len(fr[0]["signals"]) >= 2:
+            fr[0]["signals"][0]["name"] = "a_signal_name_that_is_longer_than_32_characters_x"
+            fr[0]["signals"][1]["name"] = "a_signal_name_that_is_longer_than_32_characters_y"
+    elif r2 < 0.5 and len(fr) >= 2:
         fr[1]["name"] = fr[0]["name"]          # duplicate frame names
         fr[1]["transmitters"] = sorted(set(fr[1]["transmitters"]) | {"Gw"})
     if (many_groups or rng.random() < 0.3) and fr:
@@ -93,7 +103,7 @@ def gen(rng, tier, shard, nshards):
     for _ in range({"quick": 60, "thorough": 600}[tier] // nshards + 1):
         yield {"op": "exp", "c": {"m": gen_desc(rng), "w1": rng.choice(WKEYS), "w2": rng.choice(WKEYS)}}
     if shard < 2:
-        ms = [gen_desc(rng, many_groups=(k == 0)) for k in range(3 if tier == "quick" else 10)]
+        ms = [gen_desc(rng, many_groups=(k == 0), common_prefix=(k == 1)) for k in range(3 if tier == "quick" else 10)]
         # seeds 19, 23, 40 give three further iteration orders of {'Multiplexor', 0, 1, 2, 3, 5, …, 233} on CPython 3.12 (found by search)
         seeds = [0, 19, 23, 40, 7, 31] if tier == "quick" else [0, 19, 23, 40, 7, 31, 35, 47, 51, 54, 59, 1]
         if shard == 1:
